@@ -155,6 +155,12 @@ class Gen:
             # per-field distinct contents: every byte of the record differs from its neighbours
             base = r.randrange(256)
             rb = [(base + 7 * j + 3 * i) % 256 for j in range(rec)] if r.random() < 0.5 else [r.randrange(256) for _ in range(rec)]
+            if i > 0 and r.random() < 0.25:
+                # a repeat of the previous record (a long flow reported twice), identical or differing in one byte
+                # (any field, the padding bytes included)
+                rb = list(body[-rec:])
+                if r.random() < 0.8:
+                    rb[r.randrange(rec)] ^= 1 << r.randrange(8)
             if proto_iter is not None:
                 rb[38] = next(proto_iter) % 256
             body += rb
@@ -224,7 +230,13 @@ class Gen:
 
     def ix_msg(self, sets):
         body = [x for s in sets for x in s]
-        return b16(10) + b16(16 + len(body)) + self.rbytes(4) + self.rbytes(4) + self.rbytes(4) + body
+        # export time, sequence number and observation domain: now and then those of the previous message (template-only
+        # messages do not advance the sequence number, so two of them sent within a second carry the same header fields)
+        h = getattr(self, "_last_ix_hdr", None)
+        if h is None or self.r.random() >= 0.15:
+            h = self.rbytes(4) + self.rbytes(4) + self.rbytes(4)
+        self._last_ix_hdr = h
+        return b16(10) + b16(16 + len(body)) + h + body
 
 
 class Exporter:
@@ -476,6 +488,13 @@ def hostile_templates_session(g):
         ops.append(call("A", g.ix_msg([g.set_(tid, body)])))
     # a V9 header announcing no flowsets, followed by bytes that would read as flowsets (a template, data for a cached
     # id): the packet is its 20 header bytes, what follows starts with "version" 0 / 256
+    # the lowest IPFIX set id that is looked up as a data set (255): unknown, then defined, then used
+    ops.append(call("A", g.ix_msg([g.set_(255, g.rbytes(12))])))
+    ops.append(call("A", g.ix_msg([g.set_(2, b16(255) + b16(2) + b16(8) + b16(4) + b16(12) + b16(4))])))
+    ops.append(call("A", g.ix_msg([g.set_(255, g.rbytes(16))])))
+    # a data flowset for a cached id whose length word is below 4 (accepted with an empty body), among ordinary ones
+    tid = r.choice([256, 257, 258, 259])
+    ops.append(call("A", g.v9_hdr(2) + b16(tid) + b16(r.choice([0, 1, 2, 3])) + g.set_(tid, g.rbytes(8))))
     ops.append(call("A", g.v9_hdr(0) + g.set_(0, b16(262) + b16(1) + b16(8) + b16(4))))
     ops.append(call("A", g.v9_hdr(0) + g.set_(r.choice([256, 257, 258]), g.rbytes(16))))
     return ops
@@ -532,6 +551,10 @@ def packet_sequence(g, n, ex9, ex10, self_delimiting=True):
             proto = "v9" if r.random() < 0.5 else "ipfix"
             e = ex9 if proto == "v9" else ex10
             sets = []
+            unknown_ids = [t for t in e.ids if t not in e.tm]
+            if proto == "ipfix" and unknown_ids and r.random() < 0.3:
+                # data that arrives ahead of its template: the set is omitted, the message is still self-delimiting
+                sets.append(g.set_(r.choice(unknown_ids), g.rbytes(r.choice([4, 8, 20]))))
             for _ in range(r.choice([1, 1, 2, 3])):
                 known = list(e.tm.keys())
                 if r.random() < 0.45 or not known:
